@@ -39,7 +39,7 @@ FIRST = [
 BETWEEN = [None, "C a comment", "c another", "* starred", "! banged", "", "      ", "C", "*     x = 9", "!     &  77"]
 # (line text, is_continuation, code)
 SECOND = [
-    ("     &  2", True, "2"), ("     1  2", True, "2"), ("     $  2", True, "2"), ("     +  2", True, "2"), ("     x  2", True, "2"),
+    ("     &  2", True, "2"), ("     1  2", True, "2"), ("     !  2", True, "2"), ("     *  2", True, "2"), ("     C  2", True, "2"), ("     $  2", True, "2"), ("     +  2", True, "2"), ("     x  2", True, "2"),
     ("     &b)", True, "b)"), (_pad("     &  2", "SEQ00020"), True, "2"), (_pad("     &  b)", "SLV00020"), True, "b)"),
     ("     &'c'", True, "'c'"),
     ("      y = 3", False, "y = 3"), ("     0y = 3", False, "y = 3"), ("   30 y = 3", False, "30 y = 3"),
